@@ -9,7 +9,7 @@ import (
 func newHistScenario() any { return &histScenario{} }
 
 func defaultGenOpts(tier string) genOpts {
-	o := genOpts{MaxTargets: 6, MaxMods: 3, BigValues: true, Flags: true, Always: true, GenSources: true}
+	o := genOpts{MaxTargets: 6, MaxMods: 3, BigValues: true, Flags: true, Always: true, GenSources: true, Recursion: true}
 	if tier == "thorough" {
 		o.MaxTargets = 10
 		o.MaxMods = 4
@@ -300,6 +300,22 @@ func c02Gen(r *rand.Rand, tier string) any {
 		if r.IntN(5) == 0 {
 			sc.Ops = append(sc.Ops, opSpec{Op: "load-only", Index: r.IntN(2) == 0})
 		}
+		if r.IntN(5) == 0 {
+			// a source of the closure is unreadable during one build (which fails), then back,
+			// byte for byte: nothing has changed since the last successful executions
+			broken := ""
+			for _, t := range shadow.closure(label) {
+				for _, s := range t.Sources {
+					rel := shadow.sourceRel(t, s)
+					if _, ok := shadow.Files[rel]; ok && (broken == "" || r.IntN(3) == 0) {
+						broken = rel
+					}
+				}
+			}
+			if broken != "" {
+				sc.Ops = append(sc.Ops, opSpec{Op: "break-source", Path: broken}, opSpec{Op: "build", Label: label, Dry: r.IntN(4) == 0}, opSpec{Op: "restore-source", Path: broken})
+			}
+		}
 		sc.Ops = append(sc.Ops, opSpec{Op: "build", Label: label, N: 1, Reload: r.IntN(5) == 0}) // N=1: the checked rebuild
 	}
 	return sc
@@ -317,6 +333,7 @@ func c02Exec(scAny any, c *simcheck.Ctx) *simcheck.Violation {
 	defer h.cleanup()
 	first := true
 	currentLabel := "" // label whose closure is known to be fully built and unchanged since
+	brokenNow := map[string]bool{}
 	for i := range sc.Ops {
 		op := &sc.Ops[i]
 		if !isProcessOp(op.Op) {
@@ -343,6 +360,10 @@ func c02Exec(scAny any, c *simcheck.Ctx) *simcheck.Violation {
 				// only the edit classes the property lists keep the premise
 				switch op.Op {
 				case "touch", "rewrite-same", "comment", "blank", "doc", "edit-source":
+				case "break-source":
+					brokenNow[op.Path] = true
+				case "restore-source":
+					delete(brokenNow, op.Path)
 				case "extra-global":
 					if pkgInClosure(h.p, currentLabel, op.Label) {
 						currentLabel = ""
@@ -381,8 +402,24 @@ func c02Exec(scAny any, c *simcheck.Ctx) *simcheck.Violation {
 			continue
 		}
 		if res.RunErr != nil {
+			if len(brokenNow) > 0 {
+				// the build over an unreadable source fails; it must not have executed anything
+				// either, and leaves the premise as it was
+				c.St.Count("builds_over_an_unreadable_source", 1)
+				if currentLabel == op.Label {
+					for _, l := range h.startsIn(i) {
+						if t := h.p.target(l); t != nil && !t.Always {
+							return simcheck.V("spurious-rebuild", "a build of %s that failed on an unreadable source executed %s although nothing had changed", op.Label, l)
+						}
+					}
+				}
+				continue
+			}
 			c.St.Count("unexpected_build_error", 1)
 			return nil
+		}
+		if op.Dry {
+			continue
 		}
 		if currentLabel == op.Label && !op.Always {
 			c.St.Count("noop_rebuilds_checked", 1)
